@@ -61,6 +61,11 @@ func dumpTo(sb *strings.Builder, v interface{}, depth int) {
 	case mxj.MapSeq:
 		dumpMap(sb, t, depth)
 	case []interface{}:
+		if t == nil {
+			// a nil list is observably different from an empty one (JSON null vs [])
+			sb.WriteString("nillist")
+			return
+		}
 		sb.WriteByte('[')
 		for i, e := range t {
 			if i > 0 {
@@ -246,4 +251,103 @@ func guardedInput(text string) (in []byte, check func() string) {
 		return ""
 	}
 	return
+}
+
+// untype / retype: numbers of Go types other than float64 inside a value are written into case files as
+// marked strings, so that a replay rebuilds the very same Go types (JSON alone would turn them into float64).
+func untype(v interface{}) interface{} {
+	switch t := v.(type) {
+	case map[string]interface{}:
+		m := make(map[string]interface{}, len(t))
+		for k, e := range t {
+			m[k] = untype(e)
+		}
+		return m
+	case []interface{}:
+		l := make([]interface{}, len(t))
+		for i, e := range t {
+			l[i] = untype(e)
+		}
+		return l
+	case int:
+		return "\x01go:int:" + strconv.Itoa(t)
+	case int64:
+		return "\x01go:int64:" + strconv.FormatInt(t, 10)
+	case int32:
+		return "\x01go:int32:" + strconv.FormatInt(int64(t), 10)
+	case uint8:
+		return "\x01go:uint8:" + strconv.Itoa(int(t))
+	case uint64:
+		return "\x01go:uint64:" + strconv.FormatUint(t, 10)
+	case float32:
+		return "\x01go:float32:" + strconv.FormatFloat(float64(t), 'g', -1, 32)
+	case json.Number:
+		return "\x01go:number:" + string(t)
+	case []byte:
+		return "\x01go:bytes:" + string(t)
+	}
+	return v
+}
+
+// byteBackings collects the backing arrays of the []byte values inside v.
+func byteBackings(v interface{}, into map[uintptr]bool) {
+	switch t := v.(type) {
+	case map[string]interface{}:
+		for _, e := range t {
+			byteBackings(e, into)
+		}
+	case []interface{}:
+		for _, e := range t {
+			byteBackings(e, into)
+		}
+	case []byte:
+		if cap(t) > 0 {
+			into[reflect.ValueOf(t).Pointer()] = true
+		}
+	}
+}
+
+func retype(v interface{}) interface{} {
+	switch t := v.(type) {
+	case map[string]interface{}:
+		for k, e := range t {
+			t[k] = retype(e)
+		}
+		return t
+	case []interface{}:
+		for i, e := range t {
+			t[i] = retype(e)
+		}
+		return t
+	case string:
+		if !strings.HasPrefix(t, "\x01go:") {
+			return t
+		}
+		p := strings.SplitN(t[len("\x01go:"):], ":", 2)
+		switch p[0] {
+		case "int":
+			n, _ := strconv.Atoi(p[1])
+			return n
+		case "int64":
+			n, _ := strconv.ParseInt(p[1], 10, 64)
+			return n
+		case "int32":
+			n, _ := strconv.ParseInt(p[1], 10, 32)
+			return int32(n)
+		case "uint8":
+			n, _ := strconv.Atoi(p[1])
+			return uint8(n)
+		case "uint64":
+			n, _ := strconv.ParseUint(p[1], 10, 64)
+			return n
+		case "float32":
+			f, _ := strconv.ParseFloat(p[1], 32)
+			return float32(f)
+		case "number":
+			return json.Number(p[1])
+		case "bytes":
+			return []byte(p[1])
+		}
+	}
+	return v
 }
